@@ -25,6 +25,17 @@ def suite_c02(r, n):
     import sys as _sys
     mprogs = matrix_progs() if (RERUN.get("seed", 0) % 1000 == 0 or "-matrix" in _sys.argv) else []
     for p in mprogs: matrix_jobs(r, p, jobs, meta)
+    wprogs, wjobs, wmeta = [], [], []
+    # fixed NAME-COLLISION programs (std, slim), with the matrix in job 0: every pairing of {typedef i32, typedef
+    # i64, typedef string, enum, struct} under ONE bare name in an included file and in the file including it
+    if mprogs:
+        # 300/301: all kinds; 302/303: typedefs of the four integer widths only (a confusion of two of these still
+        # compiles, so it shows as a wrong wire type / value rather than as a build failure)
+        cprogs = [build_collide(300, False), build_collide(301, True)]
+        for p in cprogs: collide_jobs(r, p, jobs, meta)
+        mprogs = mprogs + cprogs
+        wprogs = [build_collide(302, False, CX_WIDTHS), build_collide(303, True, CX_WIDTHS)]
+        for p in wprogs: collide_jobs(r, p, wjobs, wmeta)
     # ILL-FORMED values: two fixed programs (std, slim) in which a union sits in every kind of position, in
     # every job; plus, below, random injection into the random programs' values
     bprogs = [build_badunion(200, False), build_badunion(201, True)]
@@ -106,16 +117,27 @@ def suite_c02(r, n):
                     if dump_val(vs) != dump_val(v): v, variant = ve, "valid+defaulted-unlisted"
                 jobs.append(("p", "p%d" % p.pid, gotype, sname, dump_val(vs)))
                 meta.append(("p", p, st, v, variant, "g2p %s %s %s" % (defs, sname, dump_val(vs))))
-    res, err = build_and_run(mprogs + bprogs + progs, jobs)
+    # the width-only collision programs are built and run on their own (a second scratch module): a generator
+    # that confuses two of their typedefs still emits Go that compiles, and must not be masked by a build
+    # failure of another program of this job
+    batches = [(mprogs + bprogs + progs, jobs, meta)] + ([(wprogs, wjobs, wmeta)] if wprogs else [])
+    for (bprogs_, bjobs, bmeta) in batches:
+        evaluate_batch(bprogs_, bjobs, bmeta)
+    Finish()
+
+
+def evaluate_batch(progs, jobs, meta):
+    res, err = build_and_run(progs, jobs)
     if res is None:
         OracleFail("valid IDL was not compiled to Go that builds (C02 needs the generated code)", {"op": "build", "detail": err[:3000]})
-        Stat("evaluations"); Finish(); return
+        Stat("evaluations"); return
     if err:
         OracleFail("the runner crashed while executing generated code", {"op": "run", "detail": err[:2000]})
     for (op, p, st, v, variant, line), real in zip(meta, res):
         if real is None: real = "no-result"
         Case(line, real)
         Stat("op:%s:%s" % (op, variant)); Stat("outcome:" + real.split(" ")[0]); Stat("evaluations")
+        if getattr(p, "collide", None): Stat("collision-program-cases")
         if getattr(p, "matrix", None): Stat("matrix-cases"); Stat("matrix:%s:%s%s" % (p.matrix[0], "dflt" if p.matrix[1] else "plain", ":slim" if p.genopts else ""))
         Sample({"line": line[:600], "real": real[:300]})
         # ---- the property oracle, from Thrift's rules, independent of the Lean model
@@ -147,7 +169,6 @@ def suite_c02(r, n):
             if real != want: bad = "round trip through a real Thrift protocol does not reproduce the value"
         if bad:
             OracleFail(bad, {"op": "g2" + op, "variant": variant, "line": line, "got": real[:2000], "idl": "\n".join(p.text(f) for f in p.files)[:4000]})
-    Finish()
 
 
 
@@ -300,6 +321,93 @@ def matrix_jobs(r, p, jobs, meta):
                 add("r", ve, "conforming+defaulted-omitted", vs=vs); add("w", ve, "valid+defaulted-unlisted", vs=vs); add("p", ve, "valid+defaulted-unlisted", vs=vs)
     if pos == "r":
         for _ in range(4): add("r", vals[1], "missing-required", drop=r.pick(fields)[0])
+
+
+# ------------------------------------------------------------------ the fixed name-collision programs
+CX_KINDS = ["Ti", "Tl", "Ts", "En", "St"]
+CX_WIDTHS = ["Ty", "Th", "Ti", "Tl"]
+
+def build_collide(pid, slim, kinds=CX_KINDS):
+    """Two files, main including inc. For every pairing (a, b) of CX_KINDS the bare name N<a><b> is declared as
+    kind a in inc and as kind b in main (typedef i32 / typedef i64 / typedef string / enum / struct; enums with
+    other numbers, structs with other fields). Both files declare a struct StUse, a union UnUse, an exception
+    ExUse and a service SvUse (same bare names again) whose fields are typed with the BARE names — each file's
+    own meaning — plain, optional, as list element, map key and map value; main's StCross uses inc's meanings
+    through qualified names. Everything is compiled in one -r run."""
+    p = Prog(pid)
+    inc, f = "cx%dinc" % pid, "cx%dmain" % pid
+    p.files = [inc, f]; p.includes = {inc: [], f: [inc]}; p.order = {inc: [], f: []}
+    p.genopts = "slim" if slim else ""
+    p.collide = True
+    p.args_ctors = True
+    def declare(ff, n, kind, other):
+        if kind in ("Ty", "Th"): p.typedefs[(ff, n)] = Ty(kind[1]); p.order[ff].append(("t", n))
+        elif kind == "Ti": p.typedefs[(ff, n)] = Ty("i"); p.order[ff].append(("t", n))
+        elif kind == "Tl": p.typedefs[(ff, n)] = Ty("l"); p.order[ff].append(("t", n))
+        elif kind == "Ts": p.typedefs[(ff, n)] = Ty("s"); p.order[ff].append(("t", n))
+        elif kind == "En": p.enums[(ff, n)] = [0, 2] if ff == inc else [1, 5, 70000]; p.order[ff].append(("e", n))
+        else:
+            p.structs[(ff, n)] = ("s", [(1, "d", "ia1", Ty("i"))] if ff == inc else [(1, "d", "ms1", Ty("s")), (2, "o", "mb2", Ty("l"))])
+            p.order[ff].append(("r", n))
+    def ref(ff, n, kind): return Ty({"En": "E", "St": "S"}.get(kind, "T"), file=ff, name=n)
+    names = [("N%s%s" % (a, b), a, b) for a in kinds for b in kinds]
+    for (n, a, b) in names: declare(inc, n, a, b); declare(f, n, b, a)
+    for ff in (inc, f):
+        use, fid = [], 0
+        for (n, a, b) in names:
+            k = a if ff == inc else b
+            t = ref(ff, n, k)
+            shapes = [("d", t), ("o", t), ("d", Ty("L", t)), ("d", Ty("M", Ty("s"), t))] + ([("d", Ty("M", t, Ty("i")))] if k != "St" else [])
+            for (req, ty) in shapes:
+                fid += 1; use.append((fid, req, "u%s%d" % (n.lower(), fid), ty))
+        p.structs[(ff, "StUse")] = ("s", use); p.order[ff].append(("r", "StUse"))
+        p.structs[(ff, "UnUse")] = ("u", [(i + 1, "o", "w%s%d" % (n.lower(), i + 1), ref(ff, n, a if ff == inc else b)) for i, (n, a, b) in enumerate(names)])
+        p.order[ff].append(("r", "UnUse"))
+        p.structs[(ff, "ExUse")] = ("x", [(i + 1, "d", "x%s%d" % (n.lower(), i + 1), ref(ff, n, a if ff == inc else b)) for i, (n, a, b) in enumerate(names) if a != b][:8])
+        p.order[ff].append(("r", "ExUse"))
+        args = [(i + 1, "a%s%d" % (n.lower(), i + 1), ref(ff, n, a if ff == inc else b)) for i, (n, a, b) in enumerate(names) if a != b][:10]
+        ret = ref(ff, "NTiTl", "Ti" if ff == inc else "Tl")     # both kind sets have Ti and Tl
+        p.services[(ff, "SvUse")] = {"extends": None, "methods": [{"name": "pick", "oneway": False, "args": args, "ret": ret,
+                                                                   "throws": [(1, "e", Ty("S", file=ff, name="ExUse"))]}]}
+        p.order[ff].append(("v", "SvUse"))
+        p.synth[(ff, "SvUse_pick_args")] = ("s", [(i, "d", fn, t) for (i, fn, t) in args])
+        p.synth[(ff, "SvUse_pick_result")] = ("s", [(0, "o", "success", ret), (1, "o", "e", Ty("S", file=ff, name="ExUse"))])
+    cross, fid = [], 0
+    for (n, a, b) in names:
+        for (req, ty) in [("d", ref(inc, n, a)), ("o", Ty("L", ref(inc, n, a)))]:
+            fid += 1; cross.append((fid, req, "c%s%d" % (n.lower(), fid), ty))
+    p.structs[(f, "StCross")] = ("s", cross); p.order[f].append(("r", "StCross"))
+    return p
+
+def collide_jobs(r, p, jobs, meta):
+    defs = p.defs_code()
+    def add(op, key, v, variant):
+        sname, st = "%s/%s" % key, Ty("S", file=key[0], name=key[1])
+        if op == "r":
+            ev = ";".join(events(r, p, st, v, top=True))
+            jobs.append(("r", "p%d" % p.pid, sname, sname, ev)); meta.append(("r", p, st, v, variant, "g2r %s %s %s" % (defs, sname, ev)))
+        else:
+            jobs.append((op, "p%d" % p.pid, sname, sname, dump_val(v))); meta.append((op, p, st, v, variant, "g2%s %s %s %s" % (op, defs, sname, dump_val(v))))
+    for ff in p.files:
+        for nm in ("StUse", "ExUse", "StCross"):
+            key = (ff, nm)
+            if key not in p.structs: continue
+            kind, fields = p.structs[key]
+            vals = [("(", {i: mx_zero(p, t) for (i, _, _, t) in fields}), ("(", {i: mx_nonzero(p, t) for (i, _, _, t) in fields})]
+            vals += [gen_struct(r, p, key) for _ in range(4)]
+            for v in vals:
+                for op in ("w", "r", "p"): add(op, key, v, "valid" if op != "r" else "conforming")
+        key = (ff, "UnUse")
+        for rot, (i, _, _, t) in enumerate(p.structs[key][1]):
+            for val in (mx_zero(p, t), mx_nonzero(p, t)):
+                for op in ("w", "r", "p"): add(op, key, ("(", {i: val}), "valid" if op != "r" else "conforming")
+        # the emitted args / result structs (their struct name on the wire is not the defs key: r and p only)
+        akey, rkey = (ff, "SvUse_pick_args"), (ff, "SvUse_pick_result")
+        for mk in (mx_zero, mx_nonzero):
+            av = ("(", {i: mk(p, t) for (i, _, _, t) in p.synth[akey][1]})
+            for op in ("r", "p"): add(op, akey, av, "valid" if op != "r" else "conforming")
+            rv = ("(", {0: mk(p, p.synth[rkey][1][0][3])})
+            for op in ("r", "p"): add(op, rkey, rv, "valid" if op != "r" else "conforming")
 
 
 # ------------------------------------------------------------------ the fixed ill-formed-value programs
